@@ -38,10 +38,10 @@ class Proof(geom_c20.Proof):
   """geom_c20.Proof whose lemmas from listed facts try nlsat first (polynomial identities / small nonlinear steps)"""
 
   def lemma(self, name, goal, using=None, nl_first=True):
-    if using is None or not nl_first or any(isinstance(u, str) and u not in self.facts for u in using):
+    if using is None or any(isinstance(u, str) and u not in self.facts for u in using):
       return super().lemma(name, goal, using)
     full = self.prefix + "lemma/" + name
-    for tactic in ("qfnra-nlsat", None):
+    for tactic in ("qfnra-nlsat", "smt") if nl_first else ("smt", "qfnra-nlsat"):
       small = kh.Session(self._using(using), timeout_ms=min(self.timeout_ms, 5000), tactic=tactic)
       res = small.prove(full, goal)
       self.ctx.log(f"lemma {full} ({tactic or 'default'}): {res.status} {res.secs:.2f}s")
@@ -53,15 +53,73 @@ class Proof(geom_c20.Proof):
     return super().lemma(name, goal, using)
 
 
-def run_wrapper(name, shapes, interp=None, divmode="poly", summaries=None):
+def _follows(conj, c):
+  """syntactic: c follows from the set of conjunct ids `conj` (And: all parts; Or / Not(And(Not ..)): some part)"""
+  if c.get_id() in conj:
+    return True
+  if z3.is_and(c):
+    return all(_follows(conj, k) for k in c.children())
+  if z3.is_or(c):
+    return any(_follows(conj, k) for k in c.children())
+  if z3.is_not(c) and z3.is_and(c.arg(0)):
+    return any(_follows(conj, k.arg(0)) if z3.is_not(k) else False for k in c.arg(0).children())
+  return False
+
+
+def _under(v, active):
+  """v simplified under the path condition `active`: If(c, a, b) -> a when c follows syntactically from active"""
+  if isinstance(v, Vec):
+    return Vec([_under(c, active) for c in v.c], v.shape, v.dt)
+  if not core.is_sym(v) or not z3.is_app_of(v, z3.Z3_OP_ITE) or active is True or active is False:
+    return v
+  conj = core._conjuncts(active)
+  while core.is_sym(v) and z3.is_app_of(v, z3.Z3_OP_ITE) and _follows(conj, v.arg(0)):
+    v = v.arg(1)
+  return v
+
+
+class CInterp(GInterp):
+  """GInterp that reads locals simplified under the current path condition.  A local assigned inside `if g:` is merged as
+  If(g, new, old); a read under a path condition that contains g sees `new` directly (same value on that path).  Keeps
+  loop temporaries (sol, id0, id1 of ray_box / ray_cylinder) concrete or small instead of nests of If / undef symbols."""
+
+  def lookup(self, fr, name):
+    v = super().lookup(fr, name)
+    if core.is_sym(v) or isinstance(v, Vec):
+      v2 = _under(v, self.active(fr))
+      if isinstance(v, Vec) and name in fr.env and fr.env[name] is v:
+        return v  # in-place component stores must hit the environment's object
+      return v2
+    return v
+
+
+def run_wrapper(name, shapes, interp=None, divmode="poly", summaries=None, name_matvec=True):
+  """interpret the wrapper kernel; symbolic matrix @ vector products are given names (fresh result vector + defining
+  equations, recorded in gi.matvecs as (matrix rows, vector, result)) so that rotated normals stay small terms"""
   from checks import wrap_c34
 
   core.DIVMODE[0] = divmode
+  orig = core.matmul
+  gi = interp or CInterp(summaries=summaries)
+  gi.matvecs = []
+
+  def named_matmul(a, b, interp=None):
+    res = orig(a, b, interp)
+    if name_matvec and interp is gi and len(a.shape) == 2 and len(b.shape) == 1 and any(core.is_sym(c) for c in res.c):
+      k = len(gi.matvecs)
+      out = [z3.Real(f"mv!{k}_{i}") for i in range(len(res.c))]
+      gi.assumes += [o == R(c) for o, c in zip(out, res.c)]
+      n = b.shape[0]
+      gi.matvecs.append(([[R(a.c[i * n + j]) for j in range(n)] for i in range(a.shape[0])], [R(c) for c in b.c], out))
+      return Vec(out, res.shape, res.dt)
+    return res
+
+  core.matmul = named_matmul
   try:
-    gi = interp or GInterp(summaries=summaries)
     kt = lib.kernel_thread(getattr(wrap_c34, name), shapes=shapes, interp_kw={"interp": gi})
   finally:
     core.DIVMODE[0] = "native"
+    core.matmul = orig
   return kt, gi
 
 
@@ -244,7 +302,7 @@ def unit_map(ctx):
   ctx.encode(ray._ray_map)
   ctx.bound(note="no loops; all inputs symbolic")
   ctx.assume("geom orientation is a rotation matrix (mat mat^T = mat^T mat = I) for the inner-product facts", "floats are reals")
-  kt, gi = run_wrapper("k_ray_map", {"lpnt_out": [1], "lvec_out": [1]})
+  kt, gi = run_wrapper("k_ray_map", {"lpnt_out": [1], "lvec_out": [1]}, name_matvec=False)
   pos, pnt, vec, M = vec_arg(kt, "pos"), vec_arg(kt, "pnt"), vec_arg(kt, "vec"), mat_arg(kt, "mat")
   lp, lv = out_vec(kt, "lpnt_out", 0, 3), out_vec(kt, "lvec_out", 0, 3)
   dif = sub(pnt, pos)
@@ -474,6 +532,21 @@ def world_pins(T, mp, lp_, lv_):
   return z3.And(pin_mat(T["M"], ROT_PINS[0]), pin_vec(T["pos"], (0, 0, 0)), pin_vec(T["pnt"], lp_), pin_vec(T["vec"], lv_), pin_vec(T["lp"], lp_), pin_vec(T["lv"], lv_))
 
 
+def rotated_normal(P, ctx, kt, gi, T, name):
+  """the returned normal of a hit is mat @ (local normal); -> the local normal vector (the code's value) or None"""
+  if len(gi.matvecs) != 1:
+    ctx.error(f"{name}: {len(gi.matvecs)} matrix-vector products (expected one: mat @ normal)")
+    return None
+  Mm, nl, mres = gi.matvecs[0]
+  defs = []
+  for o in mres:
+    defs += side_facts(kt, o)
+  P.lemma("normal/product", veq(mres, mv(T["M"], nl)), using=defs, nl_first=False)
+  P.lemma("normal/is-product", z3.Implies(T["x"] >= 0, veq(T["nrm"], mres)))
+  P.goal("normal/rotated-local-normal", veq(T["nrm"], mv(T["M"], nl)), T["x"] >= 0, using=["normal/product", "normal/is-product"], desc=f"{name}: normal of a hit is not mat @ (local normal)")
+  return nl
+
+
 def goal_map_args(P, T, mp, name):
   P.goal("map/arguments", z3.And(veq(mp["pos"], T["pos"]), veq(mp["pnt"], T["pnt"]), veq(mp["vec"], T["vec"]), *[veq(mp["M"][i], T["M"][i]) for i in range(3)]), using=[], desc=f"{name}: _ray_map is not called with (pos, mat, pnt, vec)")
 
@@ -553,9 +626,13 @@ def unit_ellipsoid(ctx):
   ncon = z3.Implies(l > 0, z3.And(veq(scl(nn, l), xv), dot(nn, nn) == 1))
   P.lemma("nn-unit", z3.Implies(x >= 0, dot(nn, nn) == 1), using=["l>0", ncon])
   P.lemma("nn*l=grad", z3.Implies(x >= 0, veq(scl(nn, l), grad)), using=["l>0", ncon, "normalize-arg"])
-  P.goal("normal/rotated-local-normal", veq(nrm, mv(M, nn)), x >= 0, desc="ray_ellipsoid: normal is not mat @ (normalised local gradient)")
+  nl = rotated_normal(P, ctx, kt, gi, T, "ray_ellipsoid")
+  if nl is None:
+    return
+  P.goal("normal/local-is-normalised-gradient", veq(nl, nn), x >= 0, desc="ray_ellipsoid: local normal is not the normalised local gradient")
   P.goal("normal/local-along-gradient", z3.And(l > 0, veq(scl(nn, l), grad)), x >= 0, using=["l>0", "nn*l=grad"], desc="ray_ellipsoid: local normal is not the outward gradient direction (l_i / size_i^2) at the hit point")
-  P.lemma("nrm=M nn", z3.Implies(x >= 0, veq(nrm, mv(M, nn))))
+  P.lemma("nl=nn", z3.Implies(x >= 0, veq(nl, nn)))
+  P.lemma("nrm=M nn", z3.Implies(x >= 0, veq(nrm, mv(M, nn))), using=["nl=nn", "normal/product", "normal/is-product"])
   nk = rot_norm_lemmas(P, M, nn, nrm, "rn", rot)
   P.goal("normal/unit", dot(nrm, nrm) == 1, x >= 0, using=["nrm=M nn", nk, "nn-unit"], desc="ray_ellipsoid: normal of a hit is not a unit vector")
   P.goal("normal/zero-on-miss", veq(nrm, [0, 0, 0]), x == -1, desc="ray_ellipsoid: a miss does not return the zero normal")
@@ -580,7 +657,7 @@ def bounding_sphere_lemmas(P, sp, mp, T, t, R2, name):
   P.lemma("bs/args", args_ok, using=[])
   P.lemma("map/args", z3.And(veq(mp["pos"], T["pos"]), veq(mp["pnt"], T["pnt"]), veq(mp["vec"], T["vec"])), using=[])
   # world coefficients = local ones (rotation facts of the _ray_map contract)
-  P.lemma("bs/coef", z3.And(A == dot(lv, lv), B == dot(lv, lp), C == dot(lp, lp) - R2), using=sp["defs"] + mp["facts"] + ["bs/args", "map/args"])
+  P.lemma("bs/coef", z3.And(A == dot(lv, lv), B == dot(lv, lp), C == dot(lp, lp) - R2), using=sp["defs"] + mp["facts"] + ["bs/args", "map/args"], nl_first=False)
   QT = z3.Real("QT")
   P.assume(QT == dot(lt, lt) - R2)
   P.lemma("bs/q(t)", QT == A * t * t + 2 * B * t + C, using=["bs/coef", QT == dot(lt, lt) - R2])
@@ -658,7 +735,7 @@ def unit_box(ctx):
     z3.Implies(z3.Not(passes), x == -1),
     z3.Implies(passes, z3.Or(z3.And(x == -1, *[z3.Not(f["acc"]) for f in faces]), z3.And(x >= 0, z3.Or(*[z3.And(f["acc"], x == f["d"]) for f in faces]), *[z3.Implies(f["acc"], x <= f["d"]) for f in faces]))),
   )
-  P.lemma("x-is-min-accepted-candidate", spec, using=[])
+  P.lemma("x-is-min-accepted-candidate", spec, using=[], nl_first=False)
   P.goal("range", z3.Or(x == -1, x >= 0), using=["x-is-min-accepted-candidate"], desc="ray_box: returns a negative distance other than -1")
   # (A) accepted candidate => surface point
   for f in faces:
@@ -672,7 +749,8 @@ def unit_box(ctx):
     P.lemma(f"{f['tag']}/surface-point-is-candidate", z3.Implies(onk, z3.And(f["acc"], d == t)), using=[f"{f['tag']}/unique"])
   cand = [f"{f['tag']}/surface-point-is-candidate" for f in faces]
   P.lemma("surface-point-is-some-candidate", z3.Implies(z3.And(surf(t), t >= 0, generic), z3.Or(*[z3.And(f["acc"], f["d"] == t) for f in faces])), using=cand)
-  P.goal("hit/nearest", z3.Not(surf(t)), z3.And(x >= 0, t >= 0, t < x, generic), using=["surface-point-is-some-candidate", "x-is-min-accepted-candidate"], desc="ray_box: a surface point with a smaller non-negative parameter exists (non-degenerate ray)")
+  P.lemma("nearest", z3.Implies(z3.And(x >= 0, t >= 0, t < x, generic), z3.Not(surf(t))), using=["surface-point-is-some-candidate", "x-is-min-accepted-candidate"], nl_first=False)
+  P.goal("hit/nearest", z3.Not(surf(t)), z3.And(x >= 0, t >= 0, t < x, generic), using=["nearest"], desc="ray_box: a surface point with a smaller non-negative parameter exists (non-degenerate ray)")
   # bounding sphere
   lt = [z3.Real(f"lt_{i}") for i in range(3)]
   P.assume(veq(lt, at(t)))
@@ -681,24 +759,504 @@ def unit_box(ctx):
   P.lemma("in-ball", z3.Implies(inside(at(t)), QT <= 0), using=["in-ball/components", veq(lt, at(t)), QT == dot(at(t), at(t)) - R2])
   P.lemma("pretest-passes", z3.Implies(z3.And(surf(t), t >= 0, nongrazing), passes), using=[bs, "in-ball"])
   P.goal("miss/no-surface-point-ahead", z3.Not(surf(t)), z3.And(x == -1, t >= 0, generic, nongrazing), using=["pretest-passes", "surface-point-is-some-candidate", "x-is-min-accepted-candidate"], desc="ray_box: reports a miss although a point pnt + t vec, t >= 0, is on the box surface (non-degenerate ray)")
-  # normal
+  # normal = mat @ (local face normal)
   hp = at(x)
+  nl = rotated_normal(P, ctx, kt, gi, T, "ray_box")
+  if nl is None:
+    return
+  unit = lambda i, side: [side if k == i else 0 for k in range(3)]
+  sel = z3.Or(*[z3.And(f["acc"], x == f["d"], veq(nl, unit(f["i"], f["side"]))) for f in faces])
+  P.lemma("local-normal-of-selected-candidate", z3.Implies(x >= 0, sel), using=[], nl_first=False)
   for f in faces:
     i, side, d = f["i"], f["side"], f["d"]
-    P.lemma(f"{f['tag']}/normal", z3.Implies(z3.And(x >= 0, veq(nrm, scl(col(M, i), side))), z3.Or(z3.Not(f["acc"]), x != d, hp[i] == side * size[i])), using=[f"{f['tag']}/def"])
-  sel = z3.Or(*[z3.And(f["acc"], x == f["d"], veq(nrm, scl(col(M, f["i"]), f["side"]))) for f in faces])
-  P.lemma("normal-of-selected-candidate", z3.Implies(x >= 0, sel))
-  cases = [z3.And(veq(nrm, scl(col(M, i), side)), hp[i] == side * size[i]) for i in range(3) for side in (-1, 1)]
-  P.goal("normal/outward-face-normal", z3.Or(*cases), x >= 0, using=["normal-of-selected-candidate"] + [f"{f['tag']}/normal" for f in faces], desc="ray_box: normal is not +/- the box axis (column of mat) of a face that contains the hit point, pointing outward")
+    P.lemma(f"{f['tag']}/normal", z3.Implies(z3.And(f["acc"], x == d), hp[i] == side * size[i]), using=[f"{f['tag']}/def"])
+  cases = [z3.And(veq(nl, unit(i, side)), hp[i] == side * size[i]) for i in range(3) for side in (-1, 1)]
+  P.goal("normal/outward-face-normal", z3.Or(*cases), x >= 0, using=["local-normal-of-selected-candidate"] + [f"{f['tag']}/normal" for f in faces], desc="ray_box: local normal is not +/- the unit axis of a face that contains the hit point, pointing outward")
   P.goal("normal/zero-on-miss", veq(nrm, [0, 0, 0]), x == -1, desc="ray_box: a miss does not return the zero normal")
+
+
+# ------------------------------------------------------------------------------------------------ ray_cylinder
+
+
+def min_accepted(x, passes, cands):
+  """x = -1 if the pre-test fails or no candidate is accepted, else the smallest accepted candidate parameter"""
+  return z3.And(
+    z3.Implies(z3.Not(passes), x == -1),
+    z3.Implies(passes, z3.Or(z3.And(x == -1, *[z3.Not(a) for a, d in cands]), z3.And(x >= 0, z3.Or(*[z3.And(a, x == d) for a, d in cands]), *[z3.Implies(a, x <= d) for a, d in cands]))),
+  )
+
+
+def unit_cylinder(ctx):
+  from mujoco_warp._src import ray
+
+  ctx.encode(ray.ray_cylinder)
+  ctx.bound(note="2 flat sides (concrete loop) + round side; pose, radius, half height, ray symbolic; _ray_map / _ray_quad / ray_sphere used through their proved contracts")
+  ctx.assume(
+    "radius > 0, half height > 0",
+    "ray direction is not the zero vector",
+    "mat is a rotation matrix (through the _ray_map contract)",
+    "completeness statements for non-degenerate rays: axial direction component 0 (and then not inside a cap plane) or beyond mjMINVAL; radial quadratic not grazing (discriminant not in [0, mjMINVAL)) or the ray is parallel to the axis and not on the round surface; bounding-sphere discriminant not in [0, mjMINVAL)",
+    "floats are reals; division / normalize by their defining equations",
+  )
+  r_ = local_setup(ctx, "k_ray_cylinder", lambda C: {ray._ray_map.key: C.ray_map, ray.ray_sphere.key: C.ray_sphere, ray._ray_quad.key: C.ray_quad}, "ray_cylinder")
+  if r_ is None:
+    return
+  kt, gi, C, T = r_
+  size, M, lp, lv, x, nrm, vec = T["size"], T["M"], T["lp"], T["lv"], T["x"], T["nrm"], T["vec"]
+  rp = lib.make_replay(ctx, kt, LOC + "k_ray_cylinder", "ray_cylinder", "goal", goal="checks.rayg_c34:goal_vs_mujoco", env={"geomtype": GEOM["cylinder"]})
+  divs = fresh_syms(kt, "div!")
+  if len(divs) != 2 or len(C.spheres) != 1 or len(C.quads) != 1 or len(gi.norms) != 1:
+    ctx.error(f"ray_cylinder: {len(divs)} divisions, {len(C.spheres)} bounding-sphere tests, {len(C.quads)} quadratics, {len(gi.norms)} normalisations (expected 2, 1, 1, 1)")
+    return
+  mp, sp, q = C.maps[0], C.spheres[0], C.quads[0]
+  r, h = size[0], size[1]
+  t = z3.Real("t_ref")
+  at = lambda s_: add(lp, scl(lv, s_))
+  rad = lambda s_: at(s_)[0] * at(s_)[0] + at(s_)[1] * at(s_)[1] - r * r  # radial function: 0 on the round side
+  zc = lambda s_: at(s_)[2]
+  surf = lambda s_: z3.Or(z3.And(rad(s_) == 0, zabs_le(zc(s_), h)), z3.And(z3.Or(zc(s_) == h, zc(s_) == -h), rad(s_) <= 0))
+  R2 = r * r + h * h
+  A, B, Cc, x0, x1, qsol = q["A"], q["B"], q["C"], q["x0"], q["x1"], q["sol"]
+  det = B * B - A * Cc
+  a_ref, b_ref, c_ref = lv[0] * lv[0] + lv[1] * lv[1], lv[0] * lp[0] + lv[1] * lp[1], lp[0] * lp[0] + lp[1] * lp[1] - r * r
+  pre = [z3.Or(*[v != 0 for v in vec]), r > 0, h > 0]
+  steep = z3.Or(lv[2] > MINVAL, lv[2] < -MINVAL)
+  generic = z3.And(z3.Or(steep, z3.And(lv[2] == 0, lp[2] != h, lp[2] != -h)), z3.Or(z3.And(A == 0, Cc != 0), z3.And(A > 0, z3.Or(det < 0, det >= MINVAL))))
+  pins = []
+  for sz, p_, v_, tt in [((1, 2, 0), (-3, 0, 0), (1, 0, 0), "1"), ((1, 2, 0), (0, 0, 0), (0, 0, 1), "1"), ((1, 2, 0), (-3, 3, 0), (1, 0, 0), "1"), ((1, 1, 0), (0, 0, 3), (0, 0, -1), "1"), ((1, 1, 0), (-2, 0, 2), (1, 0, -1), "1"), ((1, 1, 0), ("-1/2", 0, 3), (1, 0, -2), "1")]:
+    pins.append(z3.And(pin_vec(size, sz), world_pins(T, mp, p_, v_), t == Q(tt)))
+  names = {"t": t, "dist": x, "radial_det": det}
+  P = Proof(ctx, kt.bg + pre, names, rp, pins=pins)
+  ctx.reach(P.full, "twin:round-hit", z3.And(pins[0], x == 2))
+  ctx.reach(P.full, "twin:inside-hit-cap", z3.And(pins[1], x == 2))
+  ctx.reach(P.full, "twin:miss", z3.And(pins[2], x == -1))
+  ctx.reach(P.full, "twin:cap-hit", z3.And(pins[3], x == 2))
+  ctx.reach(P.full, "twin:enters-above-leaves-through-round-side", z3.And(pins[5], x == 1))
+  goal_map_args(P, T, mp, "ray_cylinder")
+  P.lemma("lv.lv>0", dot(lv, lv) > 0, using=[mp["facts"][0], pre[0]])
+  P.goal("quadratic/coefficients", z3.And(q["a"] == a_ref, q["b"] == b_ref, q["c"] == c_ref), using=[], desc="ray_cylinder: the quadratic solved is not (lpnt_x + x lvec_x)^2 + (lpnt_y + x lvec_y)^2 = radius^2")
+  P.lemma("coef", z3.And(A == a_ref, B == b_ref, Cc == c_ref), using=q["defs"])
+  P.lemma("rad=q", rad(t) == A * t * t + 2 * B * t + Cc, using=["coef"])
+  P.lemma("A>=0", A >= 0, using=["coef"])
+  P.lemma("A=0=>no-roots-reported", z3.Implies(A == 0, det < MINVAL), using=["coef"])
+  qfacts = quad_instances(P, "q", q, t)
+  # candidates
+  cands = []
+  for j, side in enumerate((-1, 1)):
+    d = divs[j]
+    tag = f"flat{'+' if side > 0 else '-'}"
+    pr = (lp[0] + d * lv[0]) * (lp[0] + d * lv[0]) + (lp[1] + d * lv[1]) * (lp[1] + d * lv[1])
+    accdef = z3.And(steep, d >= 0, pr <= r * r)
+    acc = z3.Bool(f"accepted_{tag}")
+    P.assume(acc == accdef)
+    cands.append({"tag": tag, "side": side, "d": d, "acc": acc, "def": acc == accdef})
+    P.lemma(f"{tag}/def", z3.Implies(lv[2] != 0, d * lv[2] == side * h - lp[2]), using=side_facts(kt, d))
+    P.lemma(f"{tag}/unique", z3.Implies(z3.And(lv[2] != 0, zc(t) == side * h), t == d), using=[f"{tag}/def"])
+    P.lemma(f"{tag}/rad", rad(d) == A * d * d + 2 * B * d + Cc, using=["coef"])
+  acc_r = z3.Bool("accepted_round")
+  accr_def = acc_r == z3.And(qsol >= 0, zabs_le(lp[2] + qsol * lv[2], h))
+  P.assume(accr_def)
+  passes = sp["sol"] >= 0
+  allc = [(c["acc"], c["d"]) for c in cands] + [(acc_r, qsol)]
+  alldefs = [c["def"] for c in cands] + [accr_def]
+  P.lemma("x-is-min-accepted-candidate", min_accepted(x, passes, allc), using=alldefs, nl_first=False)
+  P.goal("range", z3.Or(x == -1, x >= 0), using=["x-is-min-accepted-candidate"], desc="ray_cylinder: returns a negative distance other than -1")
+  # (A) accepted => on the surface
+  for c in cands:
+    P.lemma(f"{c['tag']}/accepted-on-surface", z3.Implies(z3.And(c["acc"], x == c["d"]), surf(x)), using=[f"{c['tag']}/def", c["def"]], nl_first=False)
+  P.lemma("round/root", z3.Implies(qsol >= 0, A * qsol * qsol + 2 * B * qsol + Cc == 0), using=["A>=0", "A=0=>no-roots-reported"] + q["facts"])
+  P.lemma("round/rad", rad(x) == A * x * x + 2 * B * x + Cc, using=["coef"])
+  P.lemma("round/accepted-on-surface", z3.Implies(z3.And(acc_r, x == qsol), surf(x)), using=["round/root", "round/rad", accr_def])
+  P.goal("hit/on-surface", surf(x), x >= 0, using=["x-is-min-accepted-candidate", "round/accepted-on-surface"] + [f"{c['tag']}/accepted-on-surface" for c in cands], desc="ray_cylinder: returned point is not on the cylinder surface")
+  # (B, C) a surface point at t >= 0 => some accepted candidate has a parameter <= t
+  some = z3.Or(*[z3.And(a, d <= t) for a, d in allc])
+  for c in cands:
+    onk = z3.And(zc(t) == c["side"] * h, rad(t) <= 0, t >= 0, generic)
+    P.lemma(f"{c['tag']}/surface-point-is-candidate", z3.Implies(onk, z3.And(c["acc"], c["d"] == t)), using=[f"{c['tag']}/unique", c["def"]], nl_first=False)
+  onr = z3.And(rad(t) == 0, zabs_le(zc(t), h), t >= 0, generic)
+  P.lemma("round/A>0", z3.Implies(onr, z3.And(A > 0, det >= MINVAL)), using=["rad=q", "A>=0", "q/no-root-if-det<0", "coef"])
+  P.lemma("round/t-is-root", z3.Implies(onr, z3.Or(t == x0, t == x1)), using=["round/A>0", "rad=q", "q/factor"])
+  ordered = z3.Implies(z3.And(A > 0, det >= MINVAL), z3.And(x0 < x1, qsol == z3.If(x0 >= 0, x0, z3.If(x1 >= 0, x1, -1))))
+  P.lemma("round/ordered", ordered, using=q["facts"])
+  z0 = lp[2] + x0 * lv[2]
+  P.lemma("round/first-root", z3.Implies(z3.And(onr, z3.Or(t == x0, x0 < 0)), z3.And(acc_r, qsol == t)), using=["round/A>0", "round/t-is-root", "round/ordered", accr_def])
+  P.lemma("round/second-root/first-in-slab", z3.Implies(z3.And(onr, t == x1, x0 >= 0, zabs_le(z0, h)), z3.And(acc_r, qsol <= t)), using=["round/A>0", "round/ordered", accr_def])
+  for c in cands:
+    side, d = c["side"], c["d"]
+    above = (z0 > h) if side > 0 else (z0 < -h)
+    caseg = z3.And(onr, t == x1, x0 >= 0, above)
+    P.lemma(f"round/second-root/{c['tag']}/slope", z3.Implies(caseg, (lv[2] < 0) if side > 0 else (lv[2] > 0)), using=["round/A>0", "round/ordered", (x1 - x0) * lv[2] == (lp[2] + x1 * lv[2]) - z0])
+    P.lemma(f"round/second-root/{c['tag']}/between", z3.Implies(caseg, z3.And(d > x0, d <= x1, steep)), using=[f"round/second-root/{c['tag']}/slope", f"{c['tag']}/def", (d - x0) * lv[2] == (d * lv[2] + lp[2]) - z0, (d - x1) * lv[2] == (d * lv[2] + lp[2]) - (lp[2] + x1 * lv[2]), "round/A>0", "round/ordered"])
+    P.lemma(f"round/second-root/{c['tag']}/factor", z3.Implies(z3.And(A > 0, det >= MINVAL), A * d * d + 2 * B * d + Cc == A * (d - x0) * (d - x1)), using=q["facts"])
+    P.lemma(f"round/second-root/{c['tag']}/inside", z3.Implies(z3.And(A > 0, det >= MINVAL, d >= x0, d <= x1), rad(d) <= 0), using=[f"{c['tag']}/rad", f"round/second-root/{c['tag']}/factor"])
+    P.lemma(f"round/second-root/{c['tag']}", z3.Implies(caseg, z3.And(c["acc"], d <= t)), using=[f"round/second-root/{c['tag']}/between", f"round/second-root/{c['tag']}/inside", "round/A>0", c["def"], f"{c['tag']}/rad"])
+  P.lemma("round/surface-point-has-candidate", z3.Implies(onr, some), using=["round/t-is-root", "round/first-root", "round/second-root/first-in-slab"] + [f"round/second-root/{c['tag']}" for c in cands], nl_first=False)
+  SURF, GEN = z3.Bool("on_surface_at_t"), z3.Bool("non_degenerate")
+  sdef, gdef = SURF == surf(t), GEN == generic
+  P.assume(sdef, gdef)
+  P.lemma("surface-point-has-candidate", z3.Implies(z3.And(SURF, t >= 0, GEN), some), using=["round/surface-point-has-candidate", sdef, gdef] + [f"{c['tag']}/surface-point-is-candidate" for c in cands], nl_first=False)
+  P.lemma("nearest", z3.Implies(z3.And(x >= 0, t >= 0, t < x, GEN), z3.Not(SURF)), using=["surface-point-has-candidate", "x-is-min-accepted-candidate"], nl_first=False)
+  P.goal("hit/nearest", z3.Not(surf(t)), z3.And(x >= 0, t >= 0, t < x, generic), using=["nearest", sdef, gdef], desc="ray_cylinder: a surface point with a smaller non-negative parameter exists (non-degenerate ray)")
+  # bounding sphere
+  bs, QT, nongrazing = bounding_sphere_lemmas(P, sp, mp, T, t, R2, "ray_cylinder")
+  P.lemma("in-ball", z3.Implies(z3.And(rad(t) <= 0, zabs_le(zc(t), h)), QT <= 0), using=[QT == dot(at(t), at(t)) - R2, pre[2]])
+  P.lemma("surface-in-ball", z3.Implies(surf(t), z3.And(rad(t) <= 0, zabs_le(zc(t), h))), using=[pre[2]])
+  P.lemma("pretest-passes", z3.Implies(z3.And(SURF, t >= 0, nongrazing), passes), using=[bs, "in-ball", "surface-in-ball", sdef], nl_first=False)
+  P.lemma("justified-miss", z3.Implies(z3.And(x == -1, t >= 0, GEN, nongrazing), z3.Not(SURF)), using=["pretest-passes", "surface-point-has-candidate", "x-is-min-accepted-candidate"], nl_first=False)
+  P.goal("miss/no-surface-point-ahead", z3.Not(surf(t)), z3.And(x == -1, t >= 0, generic, nongrazing), using=["justified-miss", sdef, gdef], desc="ray_cylinder: reports a miss although a point pnt + t vec, t >= 0, is on the cylinder surface (non-degenerate ray)")
+  # normal = mat @ (local normal)
+  xv, l, nn = gi.norms[0]
+  hp = at(x)
+  nl = rotated_normal(P, ctx, kt, gi, T, "ray_cylinder")
+  if nl is None:
+    return
+  flatn = [z3.And(c["acc"], x == c["d"], veq(nl, [0, 0, c["side"]])) for c in cands]
+  roundsel = z3.And(acc_r, x == qsol, veq(nl, nn), veq(xv, [hp[0], hp[1], 0]))
+  P.lemma("local-normal-of-selected-candidate", z3.Implies(x >= 0, z3.Or(roundsel, *flatn)), using=alldefs, nl_first=False)
+  P.lemma("round/l^2", z3.Implies(z3.And(acc_r, x == qsol, veq(xv, [hp[0], hp[1], 0])), l * l == r * r), using=["round/root", "round/rad", l * l == dot(xv, xv), accr_def])
+  P.lemma("round/l=r", z3.Implies(z3.And(acc_r, x == qsol, veq(xv, [hp[0], hp[1], 0])), l == r), using=["round/l^2", l >= 0, pre[1]])
+  ncon = z3.Implies(l > 0, z3.And(veq(scl(nn, l), xv), dot(nn, nn) == 1))
+  P.lemma("round/nn", z3.Implies(z3.And(acc_r, x == qsol, veq(xv, [hp[0], hp[1], 0])), z3.And(veq(scl(nn, r), [hp[0], hp[1], 0]), dot(nn, nn) == 1)), using=["round/l=r", ncon, pre[1]])
+  geo_round = z3.And(veq(scl(nl, r), [hp[0], hp[1], 0]), dot(nl, nl) == 1, rad(x) == 0, zabs_le(zc(x), h))
+  geo_flat = [z3.And(veq(nl, [0, 0, side]), zc(x) == side * h, rad(x) <= 0) for side in (-1, 1)]
+  P.lemma("round/normal", z3.Implies(roundsel, geo_round), using=["round/nn", "round/root", "round/rad", accr_def])
+  for c, gf in zip(cands, geo_flat):
+    P.lemma(f"{c['tag']}/normal", z3.Implies(z3.And(c["acc"], x == c["d"], veq(nl, [0, 0, c["side"]])), gf), using=[f"{c['tag']}/def", c["def"]], nl_first=False)
+  P.goal("normal/outward-surface-normal", z3.Or(geo_round, *geo_flat), x >= 0, using=["local-normal-of-selected-candidate", "round/normal"] + [f"{c['tag']}/normal" for c in cands], desc="ray_cylinder: local normal is neither the radial unit vector at the hit point on the round side nor +/- the axis on the cap that contains the hit point")
+  P.goal("normal/zero-on-miss", veq(nrm, [0, 0, 0]), x == -1, desc="ray_cylinder: a miss does not return the zero normal")
+
+
+# ------------------------------------------------------------------------------------------------ ray_capsule
+
+
+def unit_capsule(ctx):
+  from mujoco_warp._src import ray
+
+  ctx.encode(ray.ray_capsule)
+  ctx.bound(note="round side + 2 roots of each end-cap sphere (concrete loops); pose, radius, half length, ray symbolic; _ray_map / _ray_quad / ray_sphere used through their proved contracts")
+  ctx.assume(
+    "radius > 0, half length > 0",
+    "ray direction is not the zero vector",
+    "mat is a rotation matrix (through the _ray_map contract)",
+    "completeness statements for non-degenerate rays: none of the three quadratics (round side, two cap spheres) grazes (discriminant not in [0, mjMINVAL)), or the ray is parallel to the axis and not on the round surface; bounding-sphere discriminant not in [0, mjMINVAL)",
+    "floats are reals; normalize by its defining equations",
+  )
+  r_ = local_setup(ctx, "k_ray_capsule", lambda C: {ray._ray_map.key: C.ray_map, ray.ray_sphere.key: C.ray_sphere, ray._ray_quad.key: C.ray_quad}, "ray_capsule")
+  if r_ is None:
+    return
+  kt, gi, C, T = r_
+  size, M, lp, lv, x, nrm, vec = T["size"], T["M"], T["lp"], T["lv"], T["x"], T["nrm"], T["vec"]
+  rp = lib.make_replay(ctx, kt, LOC + "k_ray_capsule", "ray_capsule", "goal", goal="checks.rayg_c34:goal_vs_mujoco", env={"geomtype": GEOM["capsule"]})
+  if len(C.spheres) != 1 or len(C.quads) != 3 or len(gi.norms) != 1:
+    ctx.error(f"ray_capsule: {len(C.spheres)} bounding-sphere tests, {len(C.quads)} quadratics, {len(gi.norms)} normalisations (expected 1, 3, 1)")
+    return
+  mp, sp = C.maps[0], C.spheres[0]
+  q, qt_, qb_ = C.quads
+  r, h = size[0], size[1]
+  t = z3.Real("t_ref")
+  at = lambda s_: add(lp, scl(lv, s_))
+  rad = lambda s_: at(s_)[0] * at(s_)[0] + at(s_)[1] * at(s_)[1] - r * r
+  zc = lambda s_: at(s_)[2]
+  capf = lambda s_, cz: at(s_)[0] * at(s_)[0] + at(s_)[1] * at(s_)[1] + (at(s_)[2] - cz) * (at(s_)[2] - cz) - r * r
+  surf = lambda s_: z3.Or(z3.And(rad(s_) == 0, zabs_le(zc(s_), h)), z3.And(capf(s_, h) == 0, zc(s_) >= h), z3.And(capf(s_, -h) == 0, zc(s_) <= -h))
+  R2 = (r + h) * (r + h)
+  A, B, Cc, x0, x1, qsol = q["A"], q["B"], q["C"], q["x0"], q["x1"], q["sol"]
+  det = B * B - A * Cc
+  a_ref, b_ref, c_ref = lv[0] * lv[0] + lv[1] * lv[1], lv[0] * lp[0] + lv[1] * lp[1], lp[0] * lp[0] + lp[1] * lp[1] - r * r
+  pre = [z3.Or(*[v != 0 for v in vec]), r > 0, h > 0]
+  caps = []
+  for nm_, qq, cz, sgn in (("top", qt_, h, 1), ("bottom", qb_, -h, -1)):
+    ctr = [0, 0, cz]
+    caps.append({"name": nm_, "q": qq, "cz": cz, "sgn": sgn, "det": qq["B"] * qq["B"] - qq["A"] * qq["C"], "ref": (dot(lv, lv), dot(lv, sub(lp, ctr)), dot(sub(lp, ctr), sub(lp, ctr)) - r * r)})
+  generic = z3.And(z3.Or(z3.And(A == 0, Cc != 0), z3.And(A > 0, z3.Or(det < 0, det >= MINVAL))), *[z3.Or(c["det"] < 0, c["det"] >= MINVAL) for c in caps])
+  pins = []
+  for sz, p_, v_, tt in [((1, 2, 0), (-3, 0, 0), (1, 0, 0), "1"), ((1, 2, 0), (0, 0, 0), (0, 0, 1), "1"), ((1, 2, 0), (-3, 3, 0), (1, 0, 0), "1"), ((1, 1, 0), (0, 0, 4), (0, 0, -1), "1"), ((1, 1, 0), (-3, 0, "8/5"), (1, 0, 0), "1"), ((1, 1, 0), ("-1/2", 0, 3), (1, 0, -2), "1")]:
+    pins.append(z3.And(pin_vec(size, sz), world_pins(T, mp, p_, v_), t == Q(tt)))
+  names = {"t": t, "dist": x, "radial_det": det}
+  P = Proof(ctx, kt.bg + pre, names, rp, pins=pins)
+  ctx.reach(P.full, "twin:round-hit", z3.And(pins[0], x == 2))
+  ctx.reach(P.full, "twin:inside-hit-cap", z3.And(pins[1], x == 3))
+  ctx.reach(P.full, "twin:miss", z3.And(pins[2], x == -1))
+  ctx.reach(P.full, "twin:cap-hit", z3.And(pins[3], x == 2))
+  ctx.reach(P.full, "twin:cap-hit-off-axis", z3.And(pins[4], x > 2, x < 3))
+  goal_map_args(P, T, mp, "ray_capsule")
+  P.lemma("lv.lv>0", dot(lv, lv) > 0, using=[mp["facts"][0], pre[0]])
+  P.goal("quadratic/round/coefficients", z3.And(q["a"] == a_ref, q["b"] == b_ref, q["c"] == c_ref), using=[], desc="ray_capsule: the round-side quadratic is not (lpnt_x + x lvec_x)^2 + (lpnt_y + x lvec_y)^2 = radius^2")
+  P.lemma("coef", z3.And(A == a_ref, B == b_ref, Cc == c_ref), using=q["defs"])
+  P.lemma("rad=q", rad(t) == A * t * t + 2 * B * t + Cc, using=["coef"])
+  P.lemma("A>=0", A >= 0, using=["coef"])
+  P.lemma("A=0=>no-roots-reported", z3.Implies(A == 0, det < MINVAL), using=["coef"])
+  quad_instances(P, "q", q, t)
+  for c in caps:
+    nm_, qq = c["name"], c["q"]
+    ar, br, cr = c["ref"]
+    P.goal(f"quadratic/{nm_}/coefficients", z3.And(qq["a"] == ar, qq["b"] == br, qq["c"] == cr), using=[], desc=f"ray_capsule: the {nm_}-cap quadratic is not |lpnt + x lvec - (0, 0, +/- half length)|^2 = radius^2")
+    P.lemma(f"{nm_}/coef", z3.And(qq["A"] == ar, qq["B"] == br, qq["C"] == cr), using=qq["defs"])
+    P.lemma(f"{nm_}/cap=q", capf(t, c["cz"]) == qq["A"] * t * t + 2 * qq["B"] * t + qq["C"], using=[f"{nm_}/coef"])
+    P.lemma(f"{nm_}/A>0", qq["A"] > 0, using=[f"{nm_}/coef", "lv.lv>0"])
+    quad_instances(P, nm_, qq, t)
+  # candidates
+  cands = []
+  accr = z3.Bool("accepted_round")
+  accr_def = accr == z3.And(qsol >= 0, zabs_le(lp[2] + qsol * lv[2], h))
+  P.assume(accr_def)
+  cands.append({"tag": "round", "acc": accr, "d": qsol, "def": accr_def, "part": 0})
+  for c in caps:
+    for i, u in enumerate((c["q"]["x0"], c["q"]["x1"])):
+      acc = z3.Bool(f"accepted_{c['name']}{i}")
+      zz = lp[2] + u * lv[2]
+      adef = acc == z3.And(u >= 0, (zz >= h) if c["sgn"] > 0 else (zz <= -h))
+      P.assume(adef)
+      cands.append({"tag": f"{c['name']}{i}", "acc": acc, "d": u, "def": adef, "part": c["sgn"], "cap": c})
+  passes = sp["sol"] >= 0
+  allc = [(c["acc"], c["d"]) for c in cands]
+  alldefs = [c["def"] for c in cands]
+  P.lemma("x-is-min-accepted-candidate", min_accepted(x, passes, allc), using=alldefs, nl_first=False)
+  P.goal("range", z3.Or(x == -1, x >= 0), using=["x-is-min-accepted-candidate"], desc="ray_capsule: returns a negative distance other than -1")
+  # (A) accepted => on the surface
+  P.lemma("round/root", z3.Implies(qsol >= 0, A * qsol * qsol + 2 * B * qsol + Cc == 0), using=["A>=0", "A=0=>no-roots-reported"] + q["facts"])
+  P.lemma("round/rad", rad(x) == A * x * x + 2 * B * x + Cc, using=["coef"])
+  P.lemma("round/accepted-on-surface", z3.Implies(z3.And(accr, x == qsol), surf(x)), using=["round/root", "round/rad", accr_def])
+  for c in cands[1:]:
+    cp, qq, u = c["cap"], c["cap"]["q"], c["d"]
+    nm_ = cp["name"]
+    P.lemma(f"{c['tag']}/root", z3.Implies(u >= 0, qq["A"] * u * u + 2 * qq["B"] * u + qq["C"] == 0), using=[f"{nm_}/A>0"] + qq["facts"])
+    P.lemma(f"{c['tag']}/cap(x)", capf(x, cp["cz"]) == qq["A"] * x * x + 2 * qq["B"] * x + qq["C"], using=[f"{nm_}/coef"])
+    P.lemma(f"{c['tag']}/accepted-on-surface", z3.Implies(z3.And(c["acc"], x == u), surf(x)), using=[f"{c['tag']}/root", f"{c['tag']}/cap(x)", c["def"]])
+  P.goal("hit/on-surface", surf(x), x >= 0, using=["x-is-min-accepted-candidate"] + [f"{c['tag']}/accepted-on-surface" for c in cands], desc="ray_capsule: returned point is not on the capsule surface")
+  # (B, C) a surface point at t >= 0 => some accepted candidate has a parameter <= t
+  some = z3.Or(*[z3.And(a, d <= t) for a, d in allc])
+  for cp in caps:
+    nm_, qq = cp["name"], cp["q"]
+    onc = z3.And(capf(t, cp["cz"]) == 0, (zc(t) >= h) if cp["sgn"] > 0 else (zc(t) <= -h), t >= 0, generic)
+    P.lemma(f"{nm_}/det", z3.Implies(onc, cp["det"] >= MINVAL), using=[f"{nm_}/cap=q", f"{nm_}/A>0", f"{nm_}/no-root-if-det<0"])
+    P.lemma(f"{nm_}/t-is-root", z3.Implies(onc, z3.Or(t == qq["x0"], t == qq["x1"])), using=[f"{nm_}/det", f"{nm_}/cap=q", f"{nm_}/A>0", f"{nm_}/factor"])
+    mine = [c for c in cands[1:] if c["cap"] is cp]
+    P.lemma(f"{nm_}/surface-point-is-candidate", z3.Implies(onc, z3.Or(*[z3.And(c["acc"], c["d"] == t) for c in mine])), using=[f"{nm_}/t-is-root"] + [c["def"] for c in mine], nl_first=False)
+  onr = z3.And(rad(t) == 0, zabs_le(zc(t), h), t >= 0, generic)
+  P.lemma("round/A>0", z3.Implies(onr, z3.And(A > 0, det >= MINVAL)), using=["rad=q", "A>=0", "q/no-root-if-det<0", "coef"])
+  P.lemma("round/t-is-root", z3.Implies(onr, z3.Or(t == x0, t == x1)), using=["round/A>0", "rad=q", "q/factor"])
+  P.lemma("round/ordered", z3.Implies(z3.And(A > 0, det >= MINVAL), z3.And(x0 < x1, qsol == z3.If(x0 >= 0, x0, z3.If(x1 >= 0, x1, -1)))), using=q["facts"])
+  z0 = lp[2] + x0 * lv[2]
+  P.lemma("round/first-root", z3.Implies(z3.And(onr, z3.Or(t == x0, x0 < 0)), z3.And(accr, qsol == t)), using=["round/A>0", "round/t-is-root", "round/ordered", accr_def])
+  P.lemma("round/second-root/first-in-slab", z3.Implies(z3.And(onr, t == x1, x0 >= 0, zabs_le(z0, h)), z3.And(accr, qsol <= t)), using=["round/A>0", "round/ordered", accr_def])
+  # second root on the round side while the first root is beyond a cap plane: the ray enters through that cap sphere
+  for cp in caps:
+    nm_, qq, sgn, cz = cp["name"], cp["q"], cp["sgn"], cp["cz"]
+    u0, u1 = qq["x0"], qq["x1"]
+    first = [c for c in cands[1:] if c["cap"] is cp][0]
+    sx = z3.Real(f"s_{nm_}")  # parameter at which the ray crosses the cap plane z = cz (definition; exists when lv_z != 0)
+    sdef = z3.Implies(lv[2] != 0, sx * lv[2] == cz - lp[2])
+    P.assume(sdef)
+    above = (z0 > h) if sgn > 0 else (z0 < -h)
+    caseg = z3.And(onr, t == x1, x0 >= 0, above)
+    tg = f"round/second-root/{nm_}"
+    P.lemma(f"{tg}/slope", z3.Implies(caseg, (lv[2] < 0) if sgn > 0 else (lv[2] > 0)), using=["round/A>0", "round/ordered", (x1 - x0) * lv[2] == (lp[2] + x1 * lv[2]) - z0])
+    P.lemma(f"{tg}/crossing-between-roots", z3.Implies(caseg, z3.And(sx > x0, sx <= x1)), using=[f"{tg}/slope", sdef, (sx - x0) * lv[2] == (sx * lv[2] + lp[2]) - z0, (sx - x1) * lv[2] == (sx * lv[2] + lp[2]) - (lp[2] + x1 * lv[2]), "round/A>0", "round/ordered"])
+    P.lemma(f"{tg}/rad-factor", z3.Implies(z3.And(A > 0, det >= MINVAL), A * sx * sx + 2 * B * sx + Cc == A * (sx - x0) * (sx - x1)), using=q["facts"])
+    RS, RX0 = z3.Real(f"rad_at_crossing_{nm_}"), z3.Real(f"cap_at_first_root_{nm_}")
+    P.assume(RS == A * sx * sx + 2 * B * sx + Cc, RX0 == qq["A"] * x0 * x0 + 2 * qq["B"] * x0 + qq["C"])
+    P.lemma(f"{tg}/inside-at-crossing", z3.Implies(caseg, RS <= 0), using=[f"{tg}/crossing-between-roots", f"{tg}/rad-factor", "round/A>0", RS == A * sx * sx + 2 * B * sx + Cc])
+    # cap function = radial function + (z - cz)^2
+    P.lemma(f"{tg}/cap-vs-rad", z3.And(qq["A"] * sx * sx + 2 * qq["B"] * sx + qq["C"] == RS + (lp[2] + sx * lv[2] - cz) * (lp[2] + sx * lv[2] - cz), RX0 == (A * x0 * x0 + 2 * B * x0 + Cc) + (z0 - cz) * (z0 - cz)), using=["coef", f"{nm_}/coef", RS == A * sx * sx + 2 * B * sx + Cc, RX0 == qq["A"] * x0 * x0 + 2 * qq["B"] * x0 + qq["C"]])
+    CS = z3.Real(f"cap_at_crossing_{nm_}")
+    P.assume(CS == qq["A"] * sx * sx + 2 * qq["B"] * sx + qq["C"])
+    P.lemma(f"{tg}/cap-at-crossing", z3.Implies(caseg, CS <= 0), using=[f"{tg}/cap-vs-rad", f"{tg}/inside-at-crossing", f"{tg}/slope", sdef, CS == qq["A"] * sx * sx + 2 * qq["B"] * sx + qq["C"]])
+    P.lemma(f"{tg}/cap-at-first-root", z3.Implies(caseg, RX0 > 0), using=[f"{tg}/cap-vs-rad", "round/A>0"] + q["facts"] + [h > 0])
+    P.lemma(f"{tg}/complete-square", qq["A"] * CS == (qq["A"] * sx + qq["B"]) * (qq["A"] * sx + qq["B"]) - cp["det"], using=[CS == qq["A"] * sx * sx + 2 * qq["B"] * sx + qq["C"]])
+    P.lemma(f"{tg}/cap-det", z3.Implies(caseg, cp["det"] >= MINVAL), using=[f"{tg}/complete-square", f"{tg}/cap-at-crossing", f"{nm_}/A>0", z3.Implies(caseg, z3.Or(cp["det"] < 0, cp["det"] >= MINVAL))])
+    P.lemma(f"{tg}/factors", z3.Implies(cp["det"] >= MINVAL, z3.And(CS == qq["A"] * (sx - u0) * (sx - u1), RX0 == qq["A"] * (x0 - u0) * (x0 - u1), u0 < u1)), using=[f"{nm_}/A>0", CS == qq["A"] * sx * sx + 2 * qq["B"] * sx + qq["C"], RX0 == qq["A"] * x0 * x0 + 2 * qq["B"] * x0 + qq["C"]] + qq["facts"])
+    P.lemma(f"{tg}/root-order", z3.Implies(caseg, z3.And(u0 <= sx, sx <= u1, x0 < u0)), using=[f"{tg}/factors", f"{tg}/cap-det", f"{tg}/cap-at-crossing", f"{tg}/cap-at-first-root", f"{tg}/crossing-between-roots", f"{nm_}/A>0"])
+    P.lemma(f"{tg}/entry-beyond-plane", z3.Implies(caseg, (lp[2] + u0 * lv[2] >= h) if sgn > 0 else (lp[2] + u0 * lv[2] <= -h)), using=[f"{tg}/root-order", f"{tg}/slope", sdef, (u0 - sx) * lv[2] == (lp[2] + u0 * lv[2]) - (sx * lv[2] + lp[2])])
+    P.lemma(tg, z3.Implies(caseg, z3.And(first["acc"], first["d"] <= t)), using=[f"{tg}/root-order", f"{tg}/entry-beyond-plane", f"{tg}/crossing-between-roots", first["def"]], nl_first=False)
+  SURF, GEN = z3.Bool("on_surface_at_t"), z3.Bool("non_degenerate")
+  sdef_, gdef_ = SURF == surf(t), GEN == generic
+  P.assume(sdef_, gdef_)
+  P.lemma("round/surface-point-has-candidate", z3.Implies(onr, some), using=["round/t-is-root", "round/first-root", "round/second-root/first-in-slab"] + [f"round/second-root/{cp['name']}" for cp in caps], nl_first=False)
+  P.lemma("surface-point-has-candidate", z3.Implies(z3.And(SURF, t >= 0, GEN), some), using=["round/surface-point-has-candidate", sdef_, gdef_] + [f"{cp['name']}/surface-point-is-candidate" for cp in caps], nl_first=False)
+  P.lemma("nearest", z3.Implies(z3.And(x >= 0, t >= 0, t < x, GEN), z3.Not(SURF)), using=["surface-point-has-candidate", "x-is-min-accepted-candidate"], nl_first=False)
+  P.goal("hit/nearest", z3.Not(surf(t)), z3.And(x >= 0, t >= 0, t < x, generic), using=["nearest", sdef_, gdef_], desc="ray_capsule: a surface point with a smaller non-negative parameter exists (non-degenerate ray)")
+  # bounding sphere of radius r + h
+  bs, QT, nongrazing = bounding_sphere_lemmas(P, sp, mp, T, t, R2, "ray_capsule")
+  lt = [z3.Real(f"lt_{i}") for i in range(3)]
+  P.assume(veq(lt, at(t)))
+  NRM2 = dot(lt, lt)
+  P.lemma("in-ball/round", z3.Implies(z3.And(lt[0] * lt[0] + lt[1] * lt[1] - r * r == 0, zabs_le(lt[2], h)), NRM2 <= R2), using=pre[1:])
+  for cp in caps:
+    cz = cp["cz"]
+    capl = lt[0] * lt[0] + lt[1] * lt[1] + (lt[2] - cz) * (lt[2] - cz) - r * r
+    beyond = (lt[2] >= h) if cp["sgn"] > 0 else (lt[2] <= -h)
+    P.lemma(f"in-ball/{cp['name']}/height", z3.Implies(z3.And(capl == 0, beyond), zabs_le(lt[2], h + r)), using=pre[1:])
+    P.lemma(f"in-ball/{cp['name']}/norm", z3.Implies(capl == 0, NRM2 == r * r + 2 * cz * lt[2] - h * h), using=[])
+    P.lemma(f"in-ball/{cp['name']}", z3.Implies(z3.And(capl == 0, beyond), NRM2 <= R2), using=[f"in-ball/{cp['name']}/height", f"in-ball/{cp['name']}/norm"] + pre[1:])
+  P.lemma("in-ball", z3.Implies(SURF, QT <= 0), using=["in-ball/round", "in-ball/top", "in-ball/bottom", veq(lt, at(t)), QT == dot(at(t), at(t)) - R2, sdef_])
+  P.lemma("pretest-passes", z3.Implies(z3.And(SURF, t >= 0, nongrazing), passes), using=[bs, "in-ball"], nl_first=False)
+  P.lemma("justified-miss", z3.Implies(z3.And(x == -1, t >= 0, GEN, nongrazing), z3.Not(SURF)), using=["pretest-passes", "surface-point-has-candidate", "x-is-min-accepted-candidate"], nl_first=False)
+  P.goal("miss/no-surface-point-ahead", z3.Not(surf(t)), z3.And(x == -1, t >= 0, generic, nongrazing), using=["justified-miss", sdef_, gdef_], desc="ray_capsule: reports a miss although a point pnt + t vec, t >= 0, is on the capsule surface (non-degenerate ray)")
+  # normal = mat @ normalize(hit point - nearest point of the axis segment)
+  xv, l, nn = gi.norms[0]
+  hp = at(x)
+  nl = rotated_normal(P, ctx, kt, gi, T, "ray_capsule")
+  if nl is None:
+    return
+  offs = {0: [hp[0], hp[1], 0], 1: [hp[0], hp[1], hp[2] - h], -1: [hp[0], hp[1], hp[2] + h]}
+  sels = [z3.And(c["acc"], x == c["d"], veq(nl, nn), veq(xv, offs[c["part"]])) for c in cands]
+  P.lemma("local-normal-of-selected-candidate", z3.Implies(x >= 0, z3.Or(*sels)), using=alldefs, nl_first=False)
+  ncon = z3.Implies(l > 0, z3.And(veq(scl(nn, l), xv), dot(nn, nn) == 1))
+  geos = {
+    0: z3.And(veq(scl(nl, r), offs[0]), dot(nl, nl) == 1, rad(x) == 0, zabs_le(zc(x), h)),
+    1: z3.And(veq(scl(nl, r), offs[1]), dot(nl, nl) == 1, capf(x, h) == 0, zc(x) >= h),
+    -1: z3.And(veq(scl(nl, r), offs[-1]), dot(nl, nl) == 1, capf(x, -h) == 0, zc(x) <= -h),
+  }
+  for c, sel in zip(cands, sels):
+    tg = c["tag"]
+    onpart = rad(x) == 0 if c["part"] == 0 else capf(x, c["part"] * h) == 0
+    rootf = ["round/root", "round/rad"] if c["part"] == 0 else [f"{tg}/root", f"{tg}/cap(x)"]
+    P.lemma(f"{tg}/normal/on-part", z3.Implies(z3.And(c["acc"], x == c["d"]), onpart), using=rootf + [c["def"]])
+    P.lemma(f"{tg}/normal/l^2", z3.Implies(sel, l * l == r * r), using=[f"{tg}/normal/on-part", l * l == dot(xv, xv)])
+    P.lemma(f"{tg}/normal/l=r", z3.Implies(sel, l == r), using=[f"{tg}/normal/l^2", l >= 0, pre[1]])
+    P.lemma(f"{tg}/normal", z3.Implies(sel, geos[c["part"]]), using=[f"{tg}/normal/l=r", f"{tg}/normal/on-part", ncon, pre[1], c["def"]])
+  P.goal("normal/outward-surface-normal", z3.Or(*geos.values()), x >= 0, using=["local-normal-of-selected-candidate"] + [f"{c['tag']}/normal" for c in cands], desc="ray_capsule: local normal is not the unit vector from the axis segment to the hit point on the part (round side / top cap / bottom cap) that contains the hit point")
+  P.goal("normal/zero-on-miss", veq(nrm, [0, 0, 0]), x == -1, desc="ray_capsule: a miss does not return the zero normal")
+
+
+# ------------------------------------------------------------------------------------------------ validation on MuJoCo
+
+
+def implicit_np(gt, l, size):
+  """signed implicit function of the solid in its local frame: < 0 inside, 0 on the surface, > 0 outside"""
+  x, y, z = l
+  if gt == GEOM["sphere"]:
+    return float(np.sqrt(x * x + y * y + z * z) - size[0])
+  if gt == GEOM["ellipsoid"]:
+    return float(np.sqrt((x / size[0]) ** 2 + (y / size[1]) ** 2 + (z / size[2]) ** 2) - 1)
+  if gt == GEOM["box"]:
+    return float(max(abs(x) - size[0], abs(y) - size[1], abs(z) - size[2]))
+  rho = float(np.sqrt(x * x + y * y))
+  if gt == GEOM["cylinder"]:
+    return max(rho - size[0], abs(z) - size[1])
+  if gt == GEOM["capsule"]:
+    dz = max(abs(z) - size[1], 0.0)
+    return float(np.sqrt(rho * rho + dz * dz) - size[0])
+  raise ValueError(gt)
+
+
+def normal_np(gt, l, size):
+  """outward unit surface normal (local frame) at a surface point, None near edges where it is not unique"""
+  x, y, z = l
+  if gt == GEOM["sphere"]:
+    n = np.array([x, y, z])
+  elif gt == GEOM["ellipsoid"]:
+    n = np.array([x / size[0] ** 2, y / size[1] ** 2, z / size[2] ** 2])
+  elif gt == GEOM["box"]:
+    e = np.array([abs(x) - size[0], abs(y) - size[1], abs(z) - size[2]])
+    i = int(np.argmax(e))
+    if np.sort(e)[-2] > -1e-4:
+      return None
+    n = np.zeros(3)
+    n[i] = np.sign(l[i])
+  elif gt == GEOM["cylinder"]:
+    rho = np.sqrt(x * x + y * y)
+    if abs(rho - size[0]) < 1e-4 and abs(abs(z) - size[1]) < 1e-4:
+      return None
+    n = np.array([x, y, 0.0]) if abs(rho - size[0]) < abs(abs(z) - size[1]) else np.array([0, 0, np.sign(z)])
+  elif gt == GEOM["capsule"]:
+    n = np.array([x, y, 0.0]) if abs(z) <= size[1] else np.array([x, y, z - np.sign(z) * size[1]])
+  else:
+    raise ValueError(gt)
+  return n / np.linalg.norm(n)
+
+
+def validate_characterisation(seed, n):
+  """what the units prove (nearest surface point, outward normal, justified miss) holds for mujoco.mju_rayGeom itself"""
+  import mujoco
+
+  rng = np.random.default_rng(seed + 3400)
+  bad = []
+  stats = {"hit": 0, "miss": 0, "inside": 0}
+  kinds = ["sphere", "ellipsoid", "box", "cylinder", "capsule", "plane"]
+  for it in range(n):
+    gt = GEOM[kinds[it % len(kinds)]]
+    q = rng.normal(size=4)
+    q /= np.linalg.norm(q)
+    Rm = np.zeros(9)
+    mujoco.mju_quat2Mat(Rm, q)
+    Rm = Rm.reshape(3, 3)
+    pos, size = rng.uniform(-1, 1, 3), rng.uniform(0.2, 1.0, 3)
+    mode = int(rng.integers(4))
+    lp = rng.uniform(-0.15, 0.15, 3) if mode == 0 else rng.uniform(-2.5, 2.5, 3)
+    if mode == 2:
+      lv = -lp + rng.normal(size=3) * 0.4
+    elif mode == 3:  # axis-parallel ray in the local frame (zero direction components)
+      lv = np.zeros(3)
+      lv[int(rng.integers(3))] = rng.choice([-1.0, 1.0]) * rng.uniform(0.5, 2)
+      lp = np.round(lp * 2) / 2 + 0.013
+    else:
+      lv = rng.normal(size=3)
+    pnt, vec = pos + Rm @ lp, Rm @ lv
+    nm = np.zeros(3)
+    x = float(mujoco.mju_rayGeom(pos, Rm.flatten(), size, pnt, vec, gt, nm))
+    if gt == GEOM["plane"]:
+      if rng.random() < 0.5:
+        size[:2] = 0
+        x = float(mujoco.mju_rayGeom(pos, Rm.flatten(), size, pnt, vec, gt, nm))
+      want = -1.0
+      if lv[2] <= -1e-15:
+        tt = -lp[2] / lv[2]
+        h = lp + tt * lv
+        if tt >= 0 and (size[0] <= 0 or abs(h[0]) <= size[0]) and (size[1] <= 0 or abs(h[1]) <= size[1]):
+          want = tt
+      if abs(want - x) > 1e-9 * (1 + abs(x)) or (x >= 0 and np.abs(nm - Rm[:, 2]).max() > 1e-12) or (x < 0 and np.any(nm)):
+        bad.append(f"plane reference (front face, inside rectangle, t = -z/vz) gives {want}, mju_rayGeom gives {x} normal {nm.tolist()}")
+      continue
+    f = lambda s_: implicit_np(gt, lp + s_ * lv, size)
+    if not (x == -1.0 or x >= 0):
+      bad.append(f"mju_rayGeom returns {x} (neither -1 nor >= 0)")
+      continue
+    smax = x if x >= 0 else 12.0 / np.linalg.norm(lv)
+    ss = np.linspace(0, smax, 1500)[1:-1]
+    vals = np.array([f(s_) for s_ in ss])
+    if np.abs(vals).min() < 2e-3 and x < 0:
+      continue  # grazing: excluded from the completeness statements
+    if x >= 0:
+      stats["hit"] += 1
+      stats["inside"] += f(0.0) < 0
+      if abs(f(x)) > 1e-7:
+        bad.append(f"type {gt}: mju_rayGeom's hit point is not on the surface (implicit function {f(x)})")
+      core_ = vals[(ss > 1e-6) & (ss < x - 1e-6 * (1 + x))]
+      if len(core_) and np.sign(core_.max()) != np.sign(core_.min()) and np.abs(core_).min() > 1e-6:
+        bad.append(f"type {gt}: the ray crosses the surface before mju_rayGeom's distance {x}")
+      nl = normal_np(gt, lp + x * lv, size)
+      if nl is not None and np.abs(Rm @ nl - nm).max() > 1e-6:
+        bad.append(f"type {gt}: mju_rayGeom's normal {nm.tolist()} is not mat @ outward surface normal {(Rm @ nl).tolist()}")
+    else:
+      stats["miss"] += 1
+      if vals.min() < -1e-6 or f(0.0) < 0:
+        bad.append(f"type {gt}: mju_rayGeom reports a miss although the ray enters the solid (implicit function {vals.min()})")
+      if np.any(nm):
+        bad.append(f"type {gt}: mju_rayGeom's normal of a miss is {nm.tolist()}")
+  if n >= 300 and min(stats.values()) < 10:
+    bad.append(f"characterisation validation is one-sided: {stats}")
+  return bad
+
+
+def unit_validate(ctx):
+  n = 1200 if ctx.tier == "quick" else 6000
+  for b_ in validate_characterisation(ctx.seed, n)[:6]:
+    ctx.error("geometric characterisation does not hold for mujoco.mju_rayGeom (statement over-demands): " + b_)
+  ctx.reach(ctx.session([]), "twin:validation-ran", True)
+  ctx.notes.append("nearest-surface-point / outward-normal / justified-miss characterisation checked on mujoco.mju_rayGeom for random spheres, ellipsoids, boxes, cylinders, capsules, planes (rays from inside, outside, aimed, axis-parallel)")
 
 
 def units(tier):
   return [
+    ("geometry/validate-characterisation-on-mujoco", unit_validate),
     ("geometry/map", unit_map),
     ("geometry/quad", unit_quad),
     ("geometry/plane", unit_plane),
     ("geometry/sphere", unit_sphere),
     ("geometry/ellipsoid", unit_ellipsoid),
     ("geometry/box", unit_box),
+    ("geometry/cylinder", unit_cylinder),
+    ("geometry/capsule", unit_capsule),
   ]
